@@ -47,11 +47,20 @@ theorem takeWhile_length_eq_iff {α} (p : α → Bool) (l : List α) :
   | nil => simp [hd] at h; simp [h]
   | cons x r => simp [hd] at h; simp; omega
 
+theorem tolower_eq_lowerAscii : tolower = Spec.lowerAscii := by
+  funext c; rfl
+
+/-- The model's `strncasecmp` test is the specification's token comparison of the prefix. -/
+theorem startsWithCI_eq (s p : Bytes) : startsWithCI s p = Spec.tokenEq (s.take p.length) p := by
+  unfold startsWithCI Spec.tokenEq
+  rw [tolower_eq_lowerAscii]
+
 theorem boundaryParam_eq (t : Bytes) :
     Spec.boundaryParam t = boundaryToSpec (parseBoundary t) := by
   unfold Spec.boundaryParam parseBoundary
-  simp only [ofString_multipart, ofString_boundaryq, startsWith, drop_nspaces]
-  by_cases h1 : List.isPrefixOf [109, 117, 108, 116, 105, 112, 97, 114, 116, 47] t
+  simp only [ofString_multipart, ofString_boundaryq, startsWithCI_eq, drop_nspaces, List.length_cons, List.length_nil, Nat.zero_add, Nat.reduceAdd]
+  by_cases h1 : Spec.tokenEq (t.take 10)
+      [109, 117, 108, 116, 105, 112, 97, 114, 116, 47]
   · simp only [h1, Bool.not_true, Bool.false_eq_true, if_false]
     generalize List.dropWhile (fun c => c != 59) (List.drop _ t) = s
     cases s with
@@ -59,7 +68,8 @@ theorem boundaryParam_eq (t : Bytes) :
     | cons x s1 =>
       simp only
       generalize List.dropWhile isblank s1 = p
-      by_cases h2 : List.isPrefixOf [98, 111, 117, 110, 100, 97, 114, 121, 61, 34] p
+      by_cases h2 : Spec.tokenEq (p.take 10)
+          [98, 111, 117, 110, 100, 97, 114, 121, 61, 34]
       · simp only [h2, Bool.not_true, Bool.false_eq_true, if_false]
         generalize List.drop _ p = v
         rw [takeWhile_length_eq_iff]
